@@ -15,6 +15,7 @@ if TYPE_CHECKING:
 
 from autoarray.structures.arrays import array_2d_util
 from autoconf import conf
+from autoconf.tools.decorators import cached_property_names
 
 
 def to_new_array(func):
@@ -151,12 +152,23 @@ class AbstractNDArray(ABC):
         new = copy(self)
         return new
 
+    def _dict_without_cached_properties(self):
+        """
+        The instance `__dict__` without the values stored by `cached_property` descriptors. These are functions of
+        the underlying array, so an object derived from this one (a copy, `with_new_array`, arithmetic, slicing) must
+        recompute them from its own array instead of inheriting them.
+        """
+        cached_names = cached_property_names(self.__class__)
+        return {
+            key: value for key, value in self.__dict__.items() if key not in cached_names
+        }
+
     def __copy__(self):
         """
         When copying an autoarray also copy its underlying array.
         """
         new = self.__new__(self.__class__)
-        new.__dict__.update(self.__dict__)
+        new.__dict__.update(self._dict_without_cached_properties())
         new._array = self._array.copy()
         return new
 
@@ -165,7 +177,7 @@ class AbstractNDArray(ABC):
         When copying an autoarray also copy its underlying array.
         """
         new = self.__new__(self.__class__)
-        new.__dict__.update(self.__dict__)
+        new.__dict__.update(self._dict_without_cached_properties())
         new._array = self._array.copy()
         return new
 
